@@ -389,6 +389,13 @@ class GenerateTemplates(Processor):
                                                    template_graphs=template_graphs)
         self.templates.update(meta_molecule.templates)
 
+        # a volume given by residue name also applies when the template
+        # of that residue is provided by the user (e.g. in another file)
+        for node in meta_molecule.nodes:
+            resname = meta_molecule.nodes[node]["resname"]
+            if resname in self.volumes:
+                self.volumes[meta_molecule.nodes[node]["template"]] = self.volumes[resname]
+
         self.gen_templates(meta_molecule, template_graphs)
         meta_molecule.templates = self.templates
         return meta_molecule
